@@ -259,7 +259,10 @@ def p8_clone_remap(prog):
                 if not ok and 'sink' not in reported:
                     reported.add('sink')
                     r.viol('P8', '%s/remapped-slots-not-stored' % f.path, f.loc(), 'the remapped slots do not become the %s allocator\'s slots' % ('new' if name == 'clone' else 'destination'))
-    # Slot/Location::clone_with_new_identifier: result identifier data-dependent on identifier_map.get
+    # Location::clone_with_new_identifier: (identifier_map[old identifier], same index); Slot: same generation,
+    # location remapped through Location::clone_with_new_identifier
+    S = pathsem.strip_refs
+    LOC, SLOT = 'entity::allocator::location::Location', 'entity::allocator::slot::Slot'
     for owner in ('slot::Slot', 'location::Location'):
         cands = [f for f in prog.fns.values() if f.name == 'clone_with_new_identifier' and owner in f.path]
         if len(cands) != 1:
@@ -267,30 +270,57 @@ def p8_clone_remap(prog):
             continue
         f = cands[0]
         r.inst(f.path)
-        bodies = [f] + f.closures()
+        E = pathsem.analyse(prog, f)
+        rets = [p for p in E.paths if p.ended == 'return']
+        if E.truncated or not rets:
+            r.viol('P8', '%s/not-analysable' % f.path, f.loc(), 'path enumeration cut off')
+            continue
+        src = ('p', 1, f.body.local_name(1) or 'self')
+        mp = ('p', f.body.arg_local('identifier_map') or 2, 'identifier_map')
         if owner.endswith('Location'):
-            ok = False
-            for g in bodies:
-                gets = [t for b, t in g.body.calls(lambda c: c['name'] in ('get', 'get_unchecked', 'index', 'get_key_value') and 'hashbrown' in c['path'])]
-                if not gets:
+            li_, lx_ = adt_field_index(prog, LOC, 'identifier'), adt_field_index(prog, LOC, 'index')
+            bad = None
+            for p in rets:
+                v = p.ret
+                parts = None
+                if isinstance(v, tuple) and v[0] == 'agg' and v[1] == LOC:
+                    parts = (v[4][li_], v[4][lx_])
+                elif isinstance(v, tuple) and v[0] == 'call' and v[1].endswith('Location::<R>::new') and len(v[2]) == 2:
+                    parts = (v[2][0], v[2][1])
+                if parts is None:
+                    bad = bad or 'cannot see the cloned Location (%s)' % pathsem.tstr(v)[:80]
                     continue
-                seeds = {t['dest']['l'] for t in gets}
-                d = derived(g.body, seeds)
-                # aggregate Location{identifier: <derived>, ..} or field write
-                for b, i, s in g.body.stmts():
-                    if s['k'] == 'assign' and s['rv']['k'] == 'agg' and s['rv'].get('path', '').endswith('Location'):
-                        l0 = op_local(s['rv']['ops'][0]) if s['rv']['ops'] else None
-                        p0 = op_place(s['rv']['ops'][0]) if s['rv']['ops'] else None
-                        if p0 is not None and p0['l'] in d:
-                            ok = True
-            if not ok:
-                r.viol('P8', '%s/identifier-not-remapped' % f.path, f.loc(),
-                       'the identifier field of the cloned Location is not data-dependent on identifier_map.get(..)')
+                ident, index = parts
+                looked = [t for t in pathsem.subterms(ident) if t[0] == 'call' and 'HashMap' in t[1] and t[1].rsplit('::', 1)[-1] in ('get', 'get_unchecked', 'index', 'get_key_value') and len(t[2]) >= 2
+                          and S(t[2][0]) == mp and pathsem.is_field_of(t[2][1], LOC, li_) and pathsem.mentions(t[2][1], lambda u: u == src)]
+                if not looked:
+                    bad = bad or 'the identifier field of the cloned Location is not data-dependent on identifier_map.get(<old identifier>)'
+                if not (pathsem.is_field_of(index, LOC, lx_) and pathsem.mentions(index, lambda u: u == src)):
+                    bad = bad or 'the row index of the cloned Location is not the source location\'s index'
+            if bad:
+                r.viol('P8', '%s/identifier-not-remapped' % f.path, f.loc(), bad)
         else:
-            calls_loc = any(t['f']['name'] == 'clone_with_new_identifier' and 'Location' in t['f']['path']
-                            for g in bodies for b, t in g.body.calls())
-            if not calls_loc:
-                r.viol('P8', '%s/location-not-remapped' % f.path, f.loc(), 'Slot::clone_with_new_identifier does not remap its location')
+            g_, l_ = adt_field_index(prog, SLOT, 'generation'), adt_field_index(prog, SLOT, 'location')
+            remapped = False
+            bad = None
+            for p in rets:
+                v = p.ret
+                if not (isinstance(v, tuple) and v[0] == 'agg' and v[1] == SLOT):
+                    bad = bad or 'cannot see the cloned Slot'
+                    continue
+                if not (pathsem.is_field_of(v[4][g_], SLOT, g_) and pathsem.mentions(v[4][g_], lambda u: u == src)):
+                    bad = bad or 'the cloned slot does not keep the source slot\'s generation'
+                d = p.lookup(('discr', ('f', ('d', src), l_, SLOT)))
+                lv = v[4][l_]
+                if d == 0 or lv == pathsem.NONE:
+                    continue
+                calls = p.calls(lambda e: e['name'] == 'clone_with_new_identifier' and 'Location' in e['path'])
+                if isinstance(lv, tuple) and lv[0] == 'agg' and lv[2] == 'Some' and calls and lv[4][0] == calls[0]['ret'] and any(S(x) == mp for x in calls[0]['vals']):
+                    remapped = True
+                else:
+                    bad = bad or 'an active slot\'s location is not remapped through Location::clone_with_new_identifier(.., identifier_map)'
+            if bad or not remapped:
+                r.viol('P8', '%s/location-not-remapped' % f.path, f.loc(), bad or 'Slot::clone_with_new_identifier does not remap its location')
     return r
 
 
